@@ -36,6 +36,11 @@ func drawProgram(ch core.Chooser) []dstep {
 		kc := ch.Int("kchar", 0, 3)
 		s.k = string(bytes.Repeat([]byte{byte('a' + kc)}, kl))
 		s.vlen = core.PickInt(ch, "vlen", []int{0, 1, 20, 100, 490, 500, 506, 512, 1000, 4086, 4090, 4096})
+		if core.Pct(ch, "bigvalue", 6) {
+			// a single record that is larger than anything written before (a file that more
+			// than doubles in one step)
+			s.vlen = core.PickInt(ch, "bigvlen", []int{70000, 140000, 300000, 1100000})
+		}
 		if s.kind == "crash" {
 			s.torn = fillBytes(ch, core.PickInt(ch, "tornlen", []int{0, 1, 5, 6, 9, 20, 600}))
 		}
@@ -331,7 +336,7 @@ func propC17File(ch core.Chooser, st *core.Stats) error {
 		s.a = ch.Int("a", 0, 1<<20)
 		s.b = ch.Int("b", 0, 1<<20)
 		if s.op == 0 || s.op == 1 {
-			s.data = fillBytes(ch, core.PickInt(ch, "dlen", []int{1, 16, 512, 513, 4096, 5000}))
+			s.data = fillBytes(ch, core.PickInt(ch, "dlen", []int{1, 16, 512, 513, 4096, 5000, 70000, 300000}))
 		}
 		prog = append(prog, s)
 	}
